@@ -1245,7 +1245,9 @@ class VM:
                 raise JSRangeError("Invalid array length")
             return [self._get_property(value, str(i)) for i in range(count)]
         if isinstance(value, JSFunction) or callable(value):
-            return []  # a function is an object without indexed properties
+            # a function is an object without indexed properties: `length` absent values
+            length = to_number(self._get_property(value, "length"))
+            return [UNDEFINED] * (int(length) if length == length and length > 0 else 0)
         raise JSTypeError("CreateListFromArrayLike called on non-object")
 
     @staticmethod
